@@ -34,17 +34,17 @@ func C02(r *core.Report) {
 	c02BlocktimeValueBlind(r)
 	everyFrameFollowedOnce(r, "C02.R11")
 	r.Floor("C02.R10", 2)
-	r.Floor("C02.R8", 2)
+	r.Floor("C02.R8", 1)
 	for _, k := range []string{"main.(*Epoch).GetBlock", "main.(*Epoch).GetTransaction", "main.(*Epoch).GetNodeByCid", "main.(*Epoch).ReadAtFromCar"} {
 		if f := r.Anchor("C02.R7", k); f != nil {
 			checkReentrant(r, "C02.R7", f, "requests")
 		}
 	}
 	r.Floor("C02.R1", 6)
-	r.Floor("C02.R2", 6)
-	r.Floor("C02.R3", 4)
-	r.Floor("C02.R4", 4)
-	r.Floor("C02.R6", 14)
+	r.Floor("C02.R2", 3)
+	r.Floor("C02.R3", 3)
+	r.Floor("C02.R4", 2)
+	r.Floor("C02.R6", 7)
 }
 
 func stripConvs(info *types.Info, e ast.Expr) ast.Expr {
